@@ -72,6 +72,12 @@ UNITS = [
          enforce=['arm_key_distribution', 'distribute_keys', 'distribute_keys_none', 'bt_copy_u8', 'bt_fill_u8'],
          replace=['db_create_new_bond', 'db_store_bond', 'bt_copy_u8', 'bt_fill_u8']),
 ]
+
+# the link side: link_layer<>::disconnect( reason ) (contract in lle.py) must not switch the link's encryption off while PDUs that were queued on the encrypted link are still to be sent
+import lle
+UNITS.append(lle.unit(['ll_disconnect'], name='link', replay=dict(src='replay/c05_link_replay.cpp', cxxflags=['-DNDEBUG', '-I/repo/tests/test_tools', '-I/repo/tests/link_layer'],
+                      repo_sources=['tests/test_tools/test_radio.cpp', 'tests/test_tools/hexdump.cpp', 'tests/test_tools/buffer_io.cpp', 'tests/test_tools/address_io.cpp',
+                                    'bluetoe/link_layer/delta_time.cpp', 'bluetoe/link_layer/channel_map.cpp', 'bluetoe/link_layer/connection_details.cpp', 'bluetoe/utility/address.cpp'])))
 META = dict(
     level='proof',
     explanation="security_manager.hpp bonding_data_base<>::bonding_db_data_t::arm_key_distribution / distribute_keys and the no_bonding_data_base variant, "
@@ -80,7 +86,9 @@ META = dict(
                 "endian) on the next call; each item clears its pending flag in the same call, so it is produced at most once per arming; the key "
                 "is wiped from memory once sent; on an unencrypted link nothing is produced and nothing changes; arming creates and stores a new "
                 "bond and marks both items pending.",
-    assumptions=["'only after pairing completed': arm_key_distribution has a single call site, directly behind legacy_pairing_completed() in "
+    assumptions=["distribute_keys decides when the PDU is built; it is transmitted later by the link layer: unit link (link_layer<>::disconnect, real body) proves that a disconnect "
+                 "requested by the local host does not switch the link's encryption off while queued PDUs are still to be sent",
+                 "'only after pairing completed': arm_key_distribution has a single call site, directly behind legacy_pairing_completed() in "
                  "legacy_handle_pairing_random (read off the source; that handler is not under contract - C32)",
                  "the pending flags of a new connection are false because link_layer value-initialises connection_data_t() (bonding_db_data_t has no "
                  "user-provided constructor, so the object is zero-initialised first): C++ initialisation rule, not proved",
